@@ -34,6 +34,7 @@ const (
 	fBlackReqCont = "black-required-container"
 	fUnion        = "union-exception-not-maskable"
 	fBlackLeaf    = "black-star-above-container"
+	fZeroTypedef  = "zero-required-rejects-typedef-container"
 )
 
 const baseGen = "go:with_field_mask,with_reflection"
@@ -400,16 +401,28 @@ func genOf(option string) string {
 	return baseGen + "," + option
 }
 
-// hasUnionField: some struct-like has a field whose own type is a union or an exception.
-func hasUnionField(sch *ref.Schema) bool {
-	for _, st := range sch.Structs {
-		for _, f := range st.Fields {
-			if f.Type.Kind == ref.Struct && f.Type.Struct.Kind != "struct" {
-				return true
+// zeroBlockers reports the field shapes field_mask_zero_required cannot be
+// generated for: a field whose own (final) type is a union or an exception, and
+// a field whose written type is a typedef of a list / set / map.
+func zeroBlockers(p *idl.Program) (union, typedefContainer bool) {
+	for _, f := range p.Files {
+		for _, d := range f.Defs {
+			if !d.Kind.IsStructLike() {
+				continue
+			}
+			for _, fl := range d.Fields {
+				switch fl.Type.FinalCat() {
+				case "union", "exception":
+					union = true
+				case "list", "set", "map":
+					if fl.Type.ChainLen() > 0 {
+						typedefContainer = true
+					}
+				}
 			}
 		}
 	}
-	return false
+	return
 }
 
 // pathGen draws paths over a type, guided by a value of it.
@@ -515,8 +528,16 @@ func (g *pathGen) step(t *ref.Type, sample ref.V, last bool) (pstep, ref.V, bool
 				deep = append(deep, f)
 			}
 		}
+		var maps []*ref.FieldT // maps are rare in the models: give them their own share
+		for _, f := range deep {
+			if f.Type.Kind == ref.Map {
+				maps = append(maps, f)
+			}
+		}
 		var f *ref.FieldT
 		switch {
+		case len(maps) > 0 && !rapid.SampledFrom(weights3of4).Draw(rt, "notmapfield"):
+			f = rapid.SampledFrom(maps).Draw(rt, "field")
 		case !last && len(deep) > 0 && rapid.SampledFrom(weights3of4).Draw(rt, "deepfield"):
 			f = rapid.SampledFrom(deep).Draw(rt, "field")
 		case len(present) > 0 && rapid.SampledFrom(weights3of4).Draw(rt, "presentfield"):
@@ -789,11 +810,16 @@ func TestMask(t *testing.T) {
 		}
 		option := rapid.SampledFrom(options).Draw(rt, "option")
 		base := maskCase{Main: p.Files[0].Path, Files: p.Texts(nil), Schema: sch.Export()}
-		if option == "field_mask_zero_required" && hasUnionField(sch) {
-			if vt.Known(prop, fZeroUnion) {
+		if option == "field_mask_zero_required" {
+			un, td := zeroBlockers(p)
+			switch {
+			case un && vt.Known(prop, fZeroUnion):
 				vt.Excluded(fZeroUnion)
 				option = rapid.SampledFrom(options[:2]).Draw(rt, "option2")
-			} else {
+			case td && vt.Known(prop, fZeroTypedef):
+				vt.Excluded(fZeroTypedef)
+				option = rapid.SampledFrom(options[:2]).Draw(rt, "option2")
+			case un || td:
 				c := base
 				c.Option, c.Gen, c.Mode = option, genOf(option), "generate"
 				vt.Eval()
